@@ -14,6 +14,7 @@ use std::time::Duration;
 
 /// One plain value of a result row. Floats are kept as normalised bit patterns (NaN canonical).
 #[derive(Clone, Debug, PartialEq, Eq, PartialOrd, Ord, Hash)]
+#[allow(dead_code)]
 pub enum Cell {
     Null,
     Bool(bool),
